@@ -11,6 +11,8 @@ All statements quantify over EVERY width, value, byte length class, address form
 -/
 import TonVerif.Proofs.Typed
 import TonVerif.Proofs.Snake
+import TonVerif.Proofs.SrcArith
+import TonVerif.Generated.VarLen
 
 namespace TonVerif.Properties.C06
 open TonVerif TonVerif.Model TonVerif.Spec.Tlb TonVerif.Proofs.Builder TonVerif.Proofs.Slice
@@ -252,5 +254,96 @@ example : (Kind.varInt 4).load (⟨enc (R := Nat) (.varInt 4 (-129)), []⟩ : Sl
   have := c06_decode_encode (R := Nat) (.varInt 4 (-129))
     (by simp [InRange, byteLenS, magS, byteLenU]) (by simp [WF]) [] []
   simpa [refsOf, TVal.kind] using this
+
+/-! ## Source-regenerated arithmetic (`Generated/VarLen.lean`: re-translated from builder.py on every run)
+
+`Generated.varUintIsZero / varUintByteLen` (`varIntIsZero / varIntByteLen`) are the translations of the `value == 0` test
+and of the `byte_length = math.ceil(...)` assignment of `Builder.store_var_uint` (`store_var_int`);
+`Generated.coinsLenBits` is the width `store_coins` passes.  `math.ceil(a / 8)` is read as the integer ceiling
+(harness/translate/pyarith.py; exact for bit lengths below 2^53). -/
+section Src
+open TonVerif.Proofs.SrcArith
+set_option linter.unusedSimpArgs false
+
+/-- minimal-length variable integers, unsigned: for EVERY value ≥ 0 the length prefix that `store_var_uint` writes
+(0 for the value 0, otherwise the source's `byte_length`) is the TL-B minimal byte length `byteLenU`. -/
+theorem c06_src_varuint_len (v : Int) (hv : 0 ≤ v) :
+    Generated.varUintIsZero_sideOk v ∧ Generated.varUintByteLen_sideOk v ∧
+    (if Generated.varUintIsZero v then 0 else Generated.varUintByteLen v) = byteLenU v.toNat ∧
+    Generated.varUintByteLen v = byteLenU v.toNat := by
+  have hn : v.natAbs = v.toNat := by omega
+  have key : Generated.varUintByteLen v = byteLenU v.toNat := by
+    have := byteLen_model v.toNat
+    simp only [Generated.varUintByteLen, py_bitLength_eq_bitLen, hn]
+    src_arith
+  refine ⟨by simp only [Generated.varUintIsZero_sideOk]; src_arith,
+          by simp only [Generated.varUintByteLen_sideOk]; src_arith, ?_, key⟩
+  by_cases h0 : v = 0
+  · subst h0; simp [Generated.varUintIsZero, byteLenU]
+  · rw [key]; simp [Generated.varUintIsZero, h0]
+
+/-- minimal-length variable integers, signed: for EVERY integer the length prefix that `store_var_int` writes
+(0 for the value 0, otherwise the source's `byte_length`) is the TL-B minimal two's complement byte length `byteLenS`
+(`c06_varint_minimal`: the least `l` with `-2^(8l-1) ≤ v < 2^(8l-1)`). -/
+theorem c06_src_varint_len (v : Int) :
+    Generated.varIntIsZero_sideOk v ∧ Generated.varIntByteLen_sideOk v ∧
+    (if Generated.varIntIsZero v then 0 else Generated.varIntByteLen v) = byteLenS v := by
+  refine ⟨by simp only [Generated.varIntIsZero_sideOk]; src_arith,
+          by simp only [Generated.varIntByteLen_sideOk]; src_arith, ?_⟩
+  by_cases h0 : v = 0
+  · subst h0; simp [Generated.varIntIsZero, byteLenS]
+  · have hz : Generated.varIntIsZero v = false := by simp [Generated.varIntIsZero, h0]
+    rw [hz]
+    simp only [Bool.false_eq_true, if_false, byteLenS, h0, magS]
+    have hm : ∀ x : Int, (if v ≥ 0 then v else x) = v ∨ (if v ≥ 0 then v else x) = x := by
+      intro x; by_cases h : v ≥ 0 <;> simp [h]
+    by_cases hp : v ≥ 0
+    · have := byteLenS_model v.toNat
+      have hn : v.natAbs = v.toNat := by omega
+      simp only [Generated.varIntByteLen, py_bitLength_eq_bitLen, hp, if_true, hn]
+      src_arith
+    · have := byteLenS_model (-v - 1).toNat
+      have hn : (-v - 1).natAbs = (-v - 1).toNat := by omega
+      simp only [Generated.varIntByteLen, py_bitLength_eq_bitLen, hp, if_false, hn]
+      src_arith
+
+/-- the hand model's `storeVarUint` / `storeVarInt` / `storeCoins` (what `c06_bits_exact`, `c06_store_load` are proved about)
+use exactly the source's zero test and byte length. -/
+theorem c06_src_model_var (v : Int) (k : Nat) :
+    (BOp.storeVarUint v k : BOp R) =
+      (if Generated.varUintIsZero v then BOp.storeUint 0 k
+       else BOp.storeUint (Generated.varUintByteLen v) k ⊳ BOp.storeUint v (Generated.varUintByteLen v * 8)) ∧
+    (BOp.storeVarInt v k : BOp R) =
+      (if Generated.varIntIsZero v then BOp.storeUint 0 k
+       else BOp.storeUint (Generated.varIntByteLen v) k ⊳ BOp.storeInt v (Generated.varIntByteLen v * 8)) ∧
+    (BOp.storeCoins v : BOp R) = BOp.storeVarUint v Generated.coinsLenBits := by
+  refine ⟨?_, ?_, rfl⟩
+  · unfold BOp.storeVarUint
+    by_cases h0 : v = 0
+    · simp [h0, Generated.varUintIsZero]
+    · have : Generated.varUintByteLen v = (BOp.bitLen v.natAbs + 7) / 8 := by
+        simp only [Generated.varUintByteLen, py_bitLength_eq_bitLen]; src_arith
+      simp [h0, Generated.varUintIsZero, this]
+  · unfold BOp.storeVarInt
+    by_cases h0 : v = 0
+    · simp [h0, Generated.varIntIsZero]
+    · have : Generated.varIntByteLen v = (BOp.bitLen (if v ≥ 0 then v.toNat else (-v - 1).toNat) + 1 + 7) / 8 := by
+        by_cases hp : v ≥ 0
+        · have hn : v.natAbs = v.toNat := by omega
+          simp only [Generated.varIntByteLen, py_bitLength_eq_bitLen, hp, if_true, hn]; src_arith
+        · have hn : (-v - 1).natAbs = (-v - 1).toNat := by omega
+          simp only [Generated.varIntByteLen, py_bitLength_eq_bitLen, hp, if_false, hn]; src_arith
+      simp [h0, Generated.varIntIsZero, this]
+
+/-- `store_coins` uses a 4-bit length prefix (`Grams = VarUInteger 16`). -/
+theorem c06_src_coins : Generated.coinsLenBits_sideOk ∧ Generated.coinsLenBits = 4 := ⟨trivial, rfl⟩
+
+/-- concrete values of the regenerated length computation at the byte boundaries of both signs (the hypothesis `0 ≤ v` of
+`c06_src_varuint_len` is met by 255, 256). -/
+example : Generated.varIntByteLen 127 = 1 ∧ Generated.varIntByteLen 128 = 2 ∧ Generated.varIntByteLen (-128) = 1 ∧
+    Generated.varIntByteLen (-129) = 2 ∧ Generated.varUintByteLen 255 = 1 ∧ Generated.varUintByteLen 256 = 2 := by
+  decide +kernel
+
+end Src
 
 end TonVerif.Properties.C06
